@@ -2,6 +2,7 @@
 #include <string.h>
 #include "instant.h"
 #include "scale.h"
+#include "tzob.h"
 #include "sut.h"
 
 static const char *const names[] = {
@@ -27,6 +28,30 @@ sut_rescale(sut_inst_t s, int from, int to)
 		return (sut_inst_t){-1, 0, 0, 0, 0, 0, 0};
 	}
 	i = echs_instant_detach_scale(i);
+	return (sut_inst_t){i.y, i.m, i.d, i.H, i.M, i.S, i.ms};
+}
+
+/* the same conversion of an instant that also carries a time zone (as a DTSTART;TZID=..;SCALE=.. does);
+ * -2 in .y if the zone got lost or changed on the way */
+sut_inst_t
+sut_rescale_zoned(sut_inst_t s, int from, int to, const char *zone)
+{
+	echs_instant_t i = {.u = 0ULL};
+	echs_tzob_t z = echs_tzob(zone, strlen(zone));
+	i.y = s.y, i.m = s.m, i.d = s.d, i.H = s.H, i.M = s.M, i.S = s.S, i.ms = s.ms;
+	i = echs_instant_attach_scale(i, (echs_scale_t)from);
+	i = echs_instant_attach_tzob(i, z);
+	i = echs_instant_rescale(i, (echs_scale_t)to);
+	if (echs_nul_instant_p(i)) {
+		return (sut_inst_t){0, 0, 0, 0, 0, 0, 0};
+	}
+	if ((int)echs_instant_scale(i) != to) {
+		return (sut_inst_t){-1, 0, 0, 0, 0, 0, 0};
+	}
+	if (echs_instant_tzob(i) != z) {
+		return (sut_inst_t){-2, 0, 0, 0, 0, 0, 0};
+	}
+	i = echs_instant_detach_tzob(echs_instant_detach_scale(i));
 	return (sut_inst_t){i.y, i.m, i.d, i.H, i.M, i.S, i.ms};
 }
 
